@@ -1259,7 +1259,65 @@ class Executor:
             return out
         if i == 0 and segs and isinstance(segs[0], L.Unit):
             return [(st, segs[0].v)]
+        if len(segs) == 1 and isinstance(segs[0], L.MapSeg) and isinstance(k, SV):
+            # one element per index, chosen among alternatives with pairwise exclusive guards that cover every case
+            # (e.g. the result of a loop that appends in both branches of an if)
+            seg = segs[0]
+            alts = self.total_alternatives(st, seg)
+            if alts:
+                if True:
+                    raw = Sc.iv(k.t)
+                    out2: List[Res] = []
+                    cur = st
+                    for cond, idx in [(z3.And(raw >= 0, raw < seg.n), raw), (z3.And(raw < 0, raw >= -seg.n), seg.n + raw)]:
+                        nxt = None
+                        for s, ok in self.branch(cur, cond):
+                            if not ok:
+                                nxt = s
+                                continue
+                            rest = s
+                            for n_alt, (g, v) in enumerate(alts):
+                                gi = z3.substitute(g, (seg.ivar, idx))
+                                if n_alt == len(alts) - 1:
+                                    rest.assume(gi)
+                                    out2.append((rest, self.subst(rest, v, seg.ivar, idx)))
+                                    break
+                                keep = None
+                                for s2, t in self.branch(rest, gi):
+                                    if t:
+                                        out2.append((s2, self.subst(s2, v, seg.ivar, idx)))
+                                    else:
+                                        keep = s2
+                                if keep is None:
+                                    break
+                                rest = keep
+                        if nxt is None:
+                            return out2
+                        cur = nxt
+                    out2.append(self.raise_(cur, "IndexError", sv_str("list index out of range")))
+                    return out2
         raise Unsupported("indexing into a list term of this shape")
+
+    def total_alternatives(self, st: State, seg: L.MapSeg):
+        """[(guard, element)] if the body of the segment holds EXACTLY one element per index: alternatives whose guards
+        are pairwise exclusive and together cover every case on this path; else None"""
+        alts = L.alternatives(seg.body)
+        if not alts or len(alts) < 2 or any(g is None for g, _ in alts):
+            return None
+
+        def unsat(*cs) -> bool:
+            sol = z3.Solver()
+            sol.set("timeout", 2000)
+            for ax in self.all_axioms():
+                sol.add(ax)
+            sol.add(*st.pc)
+            sol.add(seg.ivar >= 0, seg.ivar < seg.n, *cs)
+            return sol.check() == z3.unsat
+        if not all(unsat(alts[a][0], alts[b][0]) for a in range(len(alts)) for b in range(a + 1, len(alts))):
+            return None
+        if not unsat(z3.Not(z3.Or(*[g for g, _ in alts]))):
+            return None
+        return alts
 
     def e_Await(self, e: ast.Await, st: State) -> List[Res]:
         return self.bind(self.eval(e.value, st), lambda s, v: self.await_(s, v))
